@@ -1021,7 +1021,8 @@ impl<'a> Parser<'a> {
         let columns = if self.eat(&TokenKind::LParen) {
             let mut cols = Vec::new();
             loop {
-                cols.push(self.expect_ident()?);
+                // Column names may be contextual keywords, as in CREATE TABLE and SELECT.
+                cols.push(self.expect_ident_or_keyword()?);
                 if !self.eat(&TokenKind::Comma) {
                     break;
                 }
@@ -1079,7 +1080,8 @@ impl<'a> Parser<'a> {
 
         let mut assignments = Vec::new();
         loop {
-            let column = self.expect_ident()?;
+            // Column names may be contextual keywords, as in CREATE TABLE and SELECT.
+            let column = self.expect_ident_or_keyword()?;
             self.expect(&TokenKind::Eq)?;
             let value = self.parse_expr()?;
             assignments.push(Assignment { column, value });
@@ -1407,7 +1409,8 @@ impl<'a> Parser<'a> {
 
         let mut columns = Vec::new();
         loop {
-            columns.push(self.expect_ident()?);
+            // Column names may be contextual keywords, as in CREATE TABLE and SELECT.
+            columns.push(self.expect_ident_or_keyword()?);
             if !self.eat(&TokenKind::Comma) {
                 break;
             }
@@ -1454,7 +1457,8 @@ impl<'a> Parser<'a> {
             if self.eat(&TokenKind::On) {
                 let table = self.expect_ident()?;
                 self.expect(&TokenKind::LParen)?;
-                let column = self.expect_ident()?;
+                // Column names may be contextual keywords, as in CREATE TABLE and SELECT.
+                let column = self.expect_ident_or_keyword()?;
                 self.expect(&TokenKind::RParen)?;
 
                 Ok(StatementKind::DropIndex(DropIndexStmt {
